@@ -41,6 +41,7 @@ def wrap64 (i : Int) : Int := (BitVec.ofInt 64 i).toInt
 
 def isInt : Val → Option Int
   | .int .uint64 v => some (wrap64 v)
+  | .int .uint v => some (wrap64 v)       -- uint is 64 bits wide on the platforms tpl is built for
   | .int _ v => some v
   | _ => none
 def isFloat : Val → Option Float
